@@ -8,9 +8,13 @@
       environment gave (as arranged by the proxy / observed), from a state with no connection or a connection that
       will be cut after [cap] bytes; output per call (RetryCounts of the connection-failed events, number of
       send-failed events, sent?, dead letter?, dials), the byte count of every connection, and the receiver part
-      as for run_frame. *)
+      as for run_frame.
+    churn: (2 paths steps): Remoting/Churn.v on a script of spawn / kill / restart steps of the receiving system
+      interleaved with the reads of ONE connection (each traffic step starts at a frame boundary); output: the
+      connection's counters as for run_frame, then per path the deliveries (incarnation, epoch, message) and the
+      dead letters, in order. *)
 From Coq Require Import List NArith ZArith Bool.
-From Vivid Require Import Base.Tm Codec.Prim Remoting.Frame Remoting.Link.
+From Vivid Require Import Base.Tm Codec.Prim Remoting.Frame Remoting.Link Remoting.Churn.
 Import ListNotations.
 Local Open Scope N_scope.
 
@@ -39,12 +43,7 @@ Definition hdec (body : bytes) : option hmsg :=
       end
   end.
 
-Fixpoint bytes_eqb (a b : bytes) : bool :=
-  match a, b with
-  | [], [] => true
-  | x :: a', y :: b' => (x =? y) && bytes_eqb a' b'
-  | _, _ => false
-  end.
+(* bytes_eqb: Remoting/Churn.v *)
 
 Definition recv_path : bytes := [47; 114; 101; 99; 118].    (* "/recv" *)
 
@@ -137,6 +136,20 @@ Fixpoint run_calls (limit : N) (calls : list (N * list answers)) (s : @st N) : l
 
 Definition get_call (t : tm) : option (N * list answers) := get_pair get_n (get_list get_answers) t.
 
+(** ---- receiver churn (Remoting/Churn.v) ---- *)
+Definition get_step (t : tm) : option step :=
+  match t with
+  | TL [TN 0; TB p; TN inc] => Some (SSpawn p inc)
+  | TL [TN 1; TB p] => Some (SKill p)
+  | TL [TN 2; TB p] => Some (SRestart p)
+  | TL [TN 3; chunks] => match get_list get_b chunks with Some ch => Some (STraffic ch) | None => None end
+  | _ => None
+  end.
+
+Definition t_churn_path (os : list (@outcome hmsg)) (p : bytes) : tm :=
+  TL [TL (map (fun x : inst * hmsg => TL [TN (i_inc (fst x)); TN (i_epoch (fst x)); t_hmsg (snd x)]) (delivered_at p os));
+      TL (map t_hmsg (dead_at p os))].
+
 Definition run_remoting (t : tm) : tm :=
   match t with
   | TL [TN 0; conns] =>
@@ -154,6 +167,15 @@ Definition run_remoting (t : tm) : tm :=
           let (ts, s) := run_calls limit calls s0 in
           TL [TL ts; TL (map (fun w => TN (N.of_nat (length w))) (wires s)); t_obs (fold_left observe_conn cs obs0)]
       | _, _, _ => tm_err 1
+      end
+  | TL [TN 2; paths; steps] =>
+      (* receiver churn: per path of [paths] (who received what, what was dead-lettered), after the connection's
+         counters (deliveries to /recv, decoded frames, decode failures, invalid lengths) *)
+      match get_list get_b paths, get_list get_step steps with
+      | Some ps, Some ss =>
+          let os := run_churn hdec h_rpath ss [] in
+          TL [t_obs (observe (churn_events hdec ss) obs0); TL (map (t_churn_path os) ps)]
+      | _, _ => tm_err 1
       end
   | _ => tm_err 0
   end.
